@@ -23,6 +23,13 @@ def op_desc(b, S, op):
         return op["k"]
     pl = mir.op_place(op)
     terms = set(S.vals.get(pl["l"], set()))
+    proj = list(pl["p"])
+    # a field of a locally built tuple (e.g. `match (a.uid(), b.uid())`): use what was stored in that field
+    while proj and proj[0] == "*":
+        proj = proj[1:]
+    if proj and isinstance(proj[0], dict) and "f" in proj[0] and not sym.is_repo_adt(proj[0].get("adt") or "") and (pl["l"], proj[0]["f"]) in S.vals:
+        terms = set(S.vals[(pl["l"], proj[0]["f"])])
+        pl = {"l": pl["l"], "p": proj[1:]}
     for e in pl["p"]:
         if isinstance(e, dict) and "f" in e and sym.is_repo_adt(e["adt"]):
             nm = sym.short_adt(e["adt"]) + ("::" + e["v"] if e.get("v") else "") + "." + e["f"]
@@ -84,6 +91,10 @@ def switch_desc(b, S, sb, taken):
         if m and not truth:
             return "%s %s %s" % (m.group(1), NEG[m.group(2)], m.group(3))
         return dsc if truth else "!(" + dsc + ")"
+    if t["dty"] == "bool" and d is not None and d["p"]:
+        dsc = op_desc(b, S, t["d"])
+        truth = (not is_other and vals == ["1"]) or (is_other and [v for v, _ in t["ts"]] == ["0"])
+        return dsc if truth else "!(" + dsc + ")"
     # discriminant / integer switch
     subj = "?"
     if d is not None and not d["p"]:
@@ -101,6 +112,19 @@ def switch_desc(b, S, sb, taken):
                 break
         else:
             subj = op_desc(b, S, t["d"])
+    elif d is not None:
+        subj = op_desc(b, S, t["d"])
+    ity = t.get("dty") if re.fullmatch(r"[iu](8|16|32|64|128|size)", t.get("dty") or "") else None
+    if ity and not subj.startswith("discr("):
+        # integer switch: same normal form as a comparison with a typed constant
+        if is_other:
+            others = sorted(v for v, _ in t["ts"])
+            if len(others) == 1:
+                return "%s != %s_%s" % (subj, others[0], ity)
+            return "%s not in {%s}" % (subj, ",".join("%s_%s" % (v, ity) for v in others))
+        if len(vals) == 1:
+            return "%s == %s_%s" % (subj, vals[0], ity)
+        return "%s == %s" % (subj, "|".join("%s_%s" % (v, ity) for v in vals))
     if is_other:
         others = sorted(v for v, _ in t["ts"])
         return "%s not in {%s}" % (subj, ",".join(others))
